@@ -13,6 +13,7 @@
    call, arrays -- is named vm_refines_ref_partial: validated by the correspondence run, not proved. *)
 From Coq Require Import ZArith Bool List.
 From ZV Require Import Model.Num Model.RefSem Model.GenF0 Proofs.RefSemProofs Proofs.GenF0Proofs.
+From ZV Require Model.GenF1 Proofs.GenF1Proofs.
 Import ListNotations.
 Open Scope Z_scope.
 
@@ -266,7 +267,73 @@ Theorem begin_pops : forall n code m, IHexpr n code m ->
 Proof. exact GenF0Proofs.sim_begin. Qed.
 Print Assumptions begin_pops.
 
+(* ---- 8b. fragment F1 = F0 + for loops with plain / labelled break / continue ----
+   Model/GenF1.v mirrors generator.go:GenerateForLoop / GenerateBreak / GenerateContinue and the
+   LoopStart / Label / PushStackmark / PopUntilStackmark / ClearStackmark / Break / Continue
+   instructions of vm.go (loop record offsets, scopesToPop, environment.go:FindLoop). *)
+
+(* if the reference evaluator finishes on an F1 expression whose break/continue all find their loop
+   (cc []), the VM on the generated code finishes with the same value or error and the same store *)
+Theorem vm_refines_ref_F1 : forall n e env s r s',
+  GenF1.f1 e = true -> cc [] e = true -> eval n env e s = (r, s') -> r <> Fuel ->
+  exists k, GenF1.run n (GenF1.gen GenF1.top 0 e) k (GenF1.mkVm 0 [] env s) = (r, s').
+Proof. exact GenF1Proofs.vm_refines_ref_F1_closed. Qed.
+Print Assumptions vm_refines_ref_F1.
+
+(* in any code context and inside any enclosing loops L of the compile unit (IHexpr unfolded):
+   a value ends at p + |code|; an error aborts; a break / continue lands on the exit / increment
+   position of the innermost loop it addresses, with that loop's scope chain restored (scopesToPop)
+   and only junk above that loop's stack mark *)
+Theorem gen_in_context_F1 : forall n code, GenF1Proofs.loops_unique code -> forall m, (m <= n)%nat ->
+  forall e, GenF1.f1 e = true -> forall c nid L p stk0 env s r s',
+    GenF1.c_loops c = map GenF1Proofs.cl_of L ->
+    Forall (fun l => (GenF1Proofs.rl_id l < nid)%nat) L ->
+    GenF1Proofs.inv code L (GenF1.c_scopes c) env stk0 ->
+    GenF1Proofs.code_at code p (GenF1.gen c nid e) -> eval m env e s = (r, s') ->
+    GenF1Proofs.sim n code L p (p + length (GenF1.gen c nid e)) stk0 env s r s'.
+Proof. exact GenF1Proofs.gen_sim. Qed.
+Print Assumptions gen_in_context_F1.
+
+(* the loop numbers the generator hands out are pairwise distinct, so FindLoop finds the right LoopStart *)
+Theorem gen_loop_numbers_unique : forall c n e,
+  GenF1Proofs.nodupb (GenF1Proofs.ls_ids (GenF1.gen c n e)) = true.
+Proof. exact GenF1Proofs.gen_loop_numbers_unique. Qed.
+Print Assumptions gen_loop_numbers_unique.
+
+(* ---- 8c. F2 (partial): the code of a function body (generator.go:buildSexpFun) ----
+   proved: AddFuncScope, PopStackPutEnv of the formals last to first, the F1 body, RemoveScope, Return,
+   started with the arguments on the data stack and the closure's static chain, returns what `apply`
+   of the closure returns (for bodies without a self tail call and functions without `& rest`).
+   NOT proved (the rest of vm_refines_ref_F2): the self tail call RemoveScope x (scopes+1); PrepareCall;
+   Goto 0 (it equals the reference call only while the function's name still resolves to the running
+   closure: the tco-by-name finding is exactly the failure of that side condition), calls executed
+   by one VM with an address stack instead of being delegated, closures created inside the body,
+   variadic functions. *)
+Theorem vm_refines_ref_F2_partial : forall n nm ps body cenv args s r s',
+  forallb GenF1.f1 body = true -> GenF1.init_ne body = true -> forallb (cc []) body = true ->
+  length args = length ps ->
+  apply (S n) (VClos nm ps None body cenv) args s = (r, s') -> r <> Fuel ->
+  exists k, GenF1.run n (GenF1.fun_code ps body) k
+                      (GenF1.mkVm 0 (map GenF1.SV (rev args)) cenv s) = (r, s').
+Proof. exact GenF1Proofs.vm_refines_ref_F2_partial. Qed.
+Print Assumptions vm_refines_ref_F2_partial.
+
 (* ---- 9. non-vacuity ---- *)
+
+(* (for la: [(def i 0) (< i 3) (set i (+ i 1))] (for [(def j 0) (< j 3) (set j (+ j 1))]
+      (trace j) (cond (== j 1) (break la:) nil)))  is in F1 and the VM run gives nil with trace 0 1 *)
+Example ex_f1_runs :
+  let e := EFor (Some 500) (EDef 200 (EInt 0)) (ECall (EVar 4) [EVar 200; EInt 3])
+                (ESet 200 (ECall (EVar 1) [EVar 200; EInt 1]))
+             [EFor None (EDef 201 (EInt 0)) (ECall (EVar 4) [EVar 201; EInt 3])
+                   (ESet 201 (ECall (EVar 1) [EVar 201; EInt 1]))
+                [ECall (EVar 22) [EVar 201];
+                 ECond [(ECall (EVar 8) [EVar 201; EInt 1], EBreak (Some 500))] ENil]] in
+  GenF1.f1 e = true /\ cc [] e = true /\
+  (let '(r, s) := GenF1.run 50 (GenF1.gen GenF1.top 0 e) 400 (GenF1.mkVm 0 [] [0%nat] (init_store 0)) in
+   (r, rev (trace s))) = (Done VNil, [[SvInt 0]; [SvInt 1]]).
+Proof. vm_compute. auto. Qed.
+
 
 (* the listing of (cond false 1 (and 2 nil 3)): brn 3 jumps over [push 1; jump], the jump over the rest *)
 Example ex_gen_listing :
